@@ -9,6 +9,7 @@ from concurrent.futures import ThreadPoolExecutor
 
 VERIF = os.path.dirname(os.path.dirname(os.path.abspath(__file__)))
 ROOT = "/scratch/sweep"
+SRC = os.path.join(ROOT, "pristine")   # snapshot of /repo taken when the sweep starts (so /repo may be patched meanwhile)
 
 RULES = [
     (r"(?<![<>=!])<=(?!=)", "<"), (r"(?<![<>=!-])>=(?!=)", ">"), (r"(?<![<>=!\-])\s<\s(?![<=])", " <= "), (r"(?<![<>=!\-])\s>\s(?![>=])", " >= "),
@@ -38,7 +39,7 @@ RULES = [
 def gen(files):
     muts = []
     for f in files:
-        src = open(os.path.join("/repo", f)).read()
+        src = open(os.path.join(SRC, f)).read()
         cut = src.find("#[cfg(test)]\nmod ")
         body = src if cut < 0 else src[:cut]
         lines = body.split("\n")
@@ -70,7 +71,7 @@ def gen2(files):
     force a condition, turn continue into break, drop an else-less early return."""
     muts = []
     for f in files:
-        src = open(os.path.join("/repo", f)).read()
+        src = open(os.path.join(SRC, f)).read()
         cut = src.find("#[cfg(test)]\nmod ")
         body = src if cut < 0 else src[:cut]
         lines = body.split("\n")
@@ -99,7 +100,7 @@ def gen3(files):
     && / ||, swapping the two identifier arguments of a call, zip operands swapped."""
     muts = []
     for f in files:
-        src = open(os.path.join("/repo", f)).read()
+        src = open(os.path.join(SRC, f)).read()
         cut = src.find("#[cfg(test)]\nmod ")
         body = src if cut < 0 else src[:cut]
         for ln, line in enumerate(body.split("\n")):
@@ -152,7 +153,7 @@ def gen4(files):
     """Fourth operator set: sibling methods / enum variants swapped, string literals changed."""
     muts = []
     for f in files:
-        src = open(os.path.join("/repo", f)).read()
+        src = open(os.path.join(SRC, f)).read()
         cut = src.find("#[cfg(test)]\nmod ")
         body = src if cut < 0 else src[:cut]
         for ln, line in enumerate(body.split("\n")):
@@ -172,6 +173,93 @@ def gen4(files):
     for m in muts:
         k = (m["file"], m["line"], m["new"])
         if k not in seen and m["new"] != m["old"]:
+            seen.add(k)
+            out.append(m)
+    return out
+
+
+def gen5(files):
+    """Fifth operator set: lexer attribute edits (token strings, regex quantifiers and classes), range ends,
+    wrapping arithmetic turned into plain operators, narrowing casts, deleted single-line match arms,
+    negated / deleted iterator predicates, take/skip counts."""
+    muts = []
+    for f in files:
+        src = open(os.path.join(SRC, f)).read()
+        cut = src.find("#[cfg(test)]\nmod ")
+        body = src if cut < 0 else src[:cut]
+        lines = body.split("\n")
+        for ln, line in enumerate(lines):
+            st = line.strip()
+            def add(new, rule):
+                if new != line:
+                    muts.append({"file": f, "line": ln + 1, "old": line, "new": new, "rule": rule})
+            if st.startswith("#[token(") or st.startswith("#[regex("):
+                m = re.search(r'"((?:[^"\\]|\\.)*)"', line)
+                if not m:
+                    continue
+                lit = m.group(1)
+                if st.startswith("#[token("):
+                    add(line[:m.start(1)] + lit + lit[-1] + line[m.end(1):], "token literal: last char doubled")
+                    if len(lit) > 1:
+                        add(line[:m.start(1)] + lit[:-1] + line[m.end(1):], "token literal: last char dropped")
+                    if lit.isalpha():
+                        add(line[:m.start(1)] + lit.upper() + line[m.end(1):], "token literal: upper-cased")
+                    if "ignore(case)" in line:
+                        add(line.replace(", ignore(case)", ""), "token: case-sensitive")
+                else:
+                    for i, ch in enumerate(lit):
+                        if ch in "+*?" and (i == 0 or lit[i - 1] != "\\"):
+                            for rep in {"+": ["*", ""], "*": ["+", ""], "?": [""]}[ch]:
+                                add(line[:m.start(1)] + lit[:i] + rep + lit[i + 1:] + line[m.end(1):], "regex quantifier %s -> '%s' at %d" % (ch, rep, i))
+                    for a, b_ in (("[^", "["), ("\\r", ""), ("\\t", ""), ("\\n", "\\r"), ("a-z", "a-y"), ("A-Z", "A-Y"), ("0-9", "0-8"), ("0-7", "0-8"), ("a-f", "a-g"), ("A-F", "A-E"), ("_", ""), ("01", "012"), (" ", "")):
+                        i = lit.find(a)
+                        while i >= 0:
+                            add(line[:m.start(1)] + lit[:i] + b_ + lit[i + len(a):] + line[m.end(1):], "regex class %r -> %r at %d" % (a, b_, i))
+                            i = lit.find(a, i + 1)
+                    if "ignore(case)" in line:
+                        add(line.replace(", ignore(case)", ""), "regex: case-sensitive")
+                continue
+            if not st or st.startswith(("//", "#[", "#![", "use ", "///")):
+                continue
+            for m in re.finditer(r"\.\.=", line):
+                add(line[:m.start()] + ".." + line[m.end():], "..= -> ..")
+            for m in re.finditer(r"(?<![.\[(])\b(\w+|\))\.\.(?![.=])(\w)", line):
+                add(line[:m.start(2) - 2] + "..=" + line[m.start(2):], ".. -> ..=")
+            for m in re.finditer(r"\b([\w.]+)\.wrapping_(add|sub|mul)\((\w+)\)", line):
+                op = {"add": "+", "sub": "-", "mul": "*"}[m.group(2)]
+                add(line[:m.start()] + "(%s %s %s)" % (m.group(1), op, m.group(3)) + line[m.end():], "wrapping_%s -> plain operator" % m.group(2))
+            for m in re.finditer(r" as (usize|u32|u64|i64)\b", line):
+                small = {"usize": "u8", "u32": "u8", "u64": "u32", "i64": "i32"}[m.group(1)]
+                add(line[:m.start()] + " as %s as %s" % (small, m.group(1)) + line[m.end():], "narrowing cast via %s" % small)
+            if re.match(r"^\s*[A-Za-z_:|() \"&@{}.,0-9]+ => [^{]*,$", line) and not st.startswith("_ =>"):
+                add(line[:len(line) - len(line.lstrip())] + "/* arm deleted */", "single-line match arm deleted")
+            for m in re.finditer(r"\.(filter|any|all|find|position|take_while|skip_while)\(\|([^|]*)\| ", line):
+                rest, depth, end = line[m.end():], 0, None
+                for i, ch in enumerate(rest):
+                    if ch in "([{":
+                        depth += 1
+                    elif ch in ")]}":
+                        if depth == 0:
+                            end = i
+                            break
+                        depth -= 1
+                if end is not None:
+                    add(line[:m.end()] + "!(" + rest[:end] + ")" + rest[end:], "%s predicate negated" % m.group(1))
+                elif rest.strip() == "{":
+                    add(line[:m.end()] + "!" + rest, "%s predicate negated (block)" % m.group(1))
+            for m in re.finditer(r"\.filter\(\|[^|]*\| [^()]*(?:\([^()]*\)[^()]*)*\)", line):
+                add(line[:m.start()] + line[m.end():], "filter deleted")
+            for m in re.finditer(r"\.(take|skip)\((\w+)\)", line):
+                add(line[:m.start(2)] + m.group(2) + " + 1" + line[m.end(2):], "%s count + 1" % m.group(1))
+            for a, b_ in ((".saturating_sub(", ".wrapping_sub("), (".checked_", ".wrapping_"), ("unwrap_or_default()", "unwrap_or(1)"), (".is_ok()", ".is_err()"), (".is_err()", ".is_ok()"), (".and_then(", ".map(|x| x).and_then("), ("ctx.swap_vars();", "/* swap deleted */;"), ("self.swap_vars();", "/* swap deleted */;")):
+                i = line.find(a)
+                while i >= 0:
+                    add(line[:i] + b_ + line[i + len(a):], "%s -> %s" % (a, b_))
+                    i = line.find(a, i + 1)
+    seen, out = set(), []
+    for m in muts:
+        k = (m["file"], m["line"], m["new"])
+        if k not in seen:
             seen.add(k)
             out.append(m)
     return out
@@ -203,7 +291,7 @@ def prepare_worker(w):
         shutil.rmtree(d, ignore_errors=True)
         os.makedirs(d)
         for item in ("src", "Cargo.toml", "Cargo.lock", "tests", "examples"):
-            s = os.path.join("/repo", item)
+            s = os.path.join(SRC, item)
             if os.path.isdir(s):
                 shutil.copytree(s, os.path.join(d, item))
             else:
@@ -216,7 +304,7 @@ def run_mutant(args):
     d = prepare_worker(w)
     # restore sources
     shutil.rmtree(os.path.join(d, "src"))
-    shutil.copytree("/repo/src", os.path.join(d, "src"))
+    shutil.copytree(os.path.join(SRC, "src"), os.path.join(d, "src"))
     p = os.path.join(d, m["file"])
     lines = open(p).read().split("\n")
     if lines[m["line"] - 1] != m["old"]:
@@ -263,8 +351,17 @@ def main():
             files = a.pop(0).split(",")
         elif x == "--out":
             outp = a.pop(0)
-        elif x in ("--ops2", "--ops3", "--ops4"):
+        elif x in ("--ops2", "--ops3", "--ops4", "--ops5"):
             pass
+    os.makedirs(ROOT, exist_ok=True)
+    shutil.rmtree(SRC, ignore_errors=True)
+    os.makedirs(SRC)
+    for item in ("src", "Cargo.toml", "Cargo.lock", "tests", "examples"):
+        s_ = os.path.join("/repo", item)
+        if os.path.isdir(s_):
+            shutil.copytree(s_, os.path.join(SRC, item))
+        elif os.path.exists(s_):
+            shutil.copy(s_, SRC)
     if files is None:
         files = []
         for dp, dn, fn in os.walk("/repo/src"):
@@ -272,7 +369,7 @@ def main():
                 if f.endswith(".rs") and f not in ("tests.rs",) and "/tests" not in dp:
                     files.append(os.path.relpath(os.path.join(dp, f), "/repo"))
         files.sort()
-    muts = gen4(files) if "--ops4" in sys.argv else gen3(files) if "--ops3" in sys.argv else (gen2(files) if "--ops2" in sys.argv else gen(files))
+    muts = gen5(files) if "--ops5" in sys.argv else gen4(files) if "--ops4" in sys.argv else gen3(files) if "--ops3" in sys.argv else (gen2(files) if "--ops2" in sys.argv else gen(files))
     if limit:
         muts = muts[:limit]
     print("%d mutants over %d files" % (len(muts), len(files)))
